@@ -175,15 +175,41 @@ def run_case(ctx, g):
             c["kw"]["n_prior_samples"] = c["N"]
         c["kw"]["return_logprobs"] = True
         try:
+            prelude(ctx, g, c, "rejection_sample")
             run_rs(ctx, g, c)
         finally:
             c["lib"].drop_file()
     else:
         c = c14.gen_case(ctx, g, rng, logprobs=True, kinds=IT_KINDS)
         try:
+            prelude(ctx, g, c, "iterative_rejection_sample")
             run_it(ctx, g, c)
         finally:
             c["lib"].drop_file()
+
+
+def prelude(ctx, g, c, method):
+    """call history on ONE library file name: for a third of the file-path cases the same name first holds ANOTHER library
+    of the same length (other rows, other ln_prior values), is sampled from with return_logprobs=True, and is then
+    re-written with the case's library; the case proper must see the file's current content only"""
+    if c["path"] != "file" or c["pool"] is not None:
+        return
+    prng = ctx.case_rng(g["kind"] + ":prelude", g["index"])
+    if prng.random() >= 0.34:
+        return
+    lib = c["lib"]
+    path = lib.filename()
+    lib0 = rc.Library(prng, c["pr"], c["N"], with_ln_prior=True, foreign=lib.foreign)
+    lib0.samples["ln_prior"] = lib0.lnp + 50000.5          # recognisably not the case library's values
+    lib0.samples.write(path, overwrite=True)
+    lib0._file = path
+    kw = dict(c["kw"])
+    kw.pop("return_all_logprobs", None)
+    gen0 = rc.CraftGen(int(prng.integers(0, 2 ** 31)))
+    res, raised = rc.run_call(c["pr"], lib0, c["profile"], gen0, method, kw, pool=None, source="file")
+    ctx.count("prelude: same file name held another library and was sampled from" + (" (call raised)" if raised else ""))
+    lib.samples.write(path, overwrite=True)
+    c["prelude"] = dict(method=method, other_library_rows=c["N"], raised=bool(raised))
 
 
 def common_counts(ctx, c, sampler):
@@ -344,6 +370,8 @@ def run_it(ctx, g, c):
 
 
 def post(ctx):
+    ctx.require("file-path cases whose file name held another library before (call history)",
+                ctx.counters["prelude: same file name held another library and was sampled from"], 15)
     ctx.rule = RULE
     ctx.require("runs returning more than 10000 accepted samples (file path, shuffled)", ctx.counters["big:accepted-samples>10000"], 1)
     need = 45 if ctx.thorough else 15
